@@ -188,7 +188,7 @@ def check_datatypes(rep):
     by_code = {}
     for k, v in mem.items():
         by_code.setdefault(v.code, []).append(k)
-    for code in range(256):
+    for code in range(65536 + 256):  # every 16-bit number (type codes are one byte; template ids and symbol types are wider) and a few beyond
         r_item = _lookup(DataTypes, "item", code)
         r_get = _lookup(DataTypes, "get", code)
         r_in = _lookup(DataTypes, "in", code)
